@@ -78,3 +78,129 @@ Example C10_nonvacuous :
   asap_confirmed true true (DExn AttrErr) XSilent = [mkReply REJECT rejectOther 0] /\
   asap_confirmed true true DOk (XResp 3 0 0) = [mkReply 3 0 0].
 Proof. split; reflexivity. Qed.
+
+(* ======================================================================================================
+   Second half: "stays healthy under garbage", over the composed receive path (theories/DeviceRx.v):
+   NPCI decoder (C08 model) -> process_npdu of a one-adapter device with the router cache (C19 model) ->
+   APCI decoder (C07 model) -> StateMachineAccessPoint demultiplexing and the ServerSSM handlers (C04/C05/C11/C12
+   model) -> the reply decision above from the octets (C03 codec model) -> the way down.
+   Fragment: a non-router device with one adapter of unknown network number, acting as a server (empty client
+   transaction table); service execution, the length of a ComplexAck and the I-Am bookkeeping enter as data of the
+   event; a Network-Number-Is broadcast leaves the fragment (d_lost); the link layer (BVLL) is not in this model. *)
+From Bac Require Import PyRt Ssm SsmC04a SsmC04h.
+From Bac Require Npci Apci RouterCache SsmWorld.
+From Bac Require Import DeviceRx DeviceRxFacts DeviceRxReply DeviceRxEnd DeviceRxPeer.
+From BacGen Require Import ApduFns.
+Open Scope Z_scope.
+
+(* (1) for EVERY frame — any octet string, from any station, unicast or broadcast, whatever the service layer is
+   said to have done — the node invariant survives: the transaction table stays duplicate-free, every listed
+   transaction is in a state with a time-out handler and holds an armed timer, nothing outside the table holds a timer *)
+Theorem C10_garbage_preserves_inv : forall st now f x,
+  dev_inv st -> dev_inv (fst (device_rx st now f x)).
+Proof. exact device_rx_inv. Qed.
+Print Assumptions C10_garbage_preserves_inv.
+
+(* ... and over every history of frames, single timers firing and stretches of time, from power-up *)
+Theorem C10_history_preserves_inv : forall evs st, dev_inv st -> dev_inv (fst (device_run st evs)).
+Proof. exact device_run_inv. Qed.
+Print Assumptions C10_history_preserves_inv.
+
+(* the invariant in the property's own terms: as many armed timers as listed transactions, none elsewhere *)
+Theorem C10_inv_no_residue : forall st, dev_inv st ->
+  zlen (filter armed (d_str st)) = zlen (d_str st) /\ zlen (filter armed (d_gone st)) = 0.
+Proof. exact inv_residue. Qed.
+Print Assumptions C10_inv_no_residue.
+
+(* (2) frames a decoder refuses are dropped: nothing is sent, nothing changes — except that a frame whose NPCI decoded
+   and names a source network has taught the router cache the path to it before the APCI decoder refused *)
+Theorem C10_undecodable_frame_is_dropped : forall st now f x e,
+  Npci.dec_npci (f_data f) = Err e -> device_rx st now f x = (st, []).
+Proof. exact npci_refused_dropped. Qed.
+Print Assumptions C10_undecodable_frame_is_dropped.
+
+Theorem C10_undecodable_apdu_is_dropped : forall st now f x c h rest e,
+  Npci.dec_npci (f_data f) = Ok (c, h, rest) -> Npci.nmsg h = None -> Apci.dec_apci rest = Err e ->
+  snd (device_rx st now f x) = [] /\ same_tables st (fst (device_rx st now f x)) /\
+  (Npci.sadr h = None -> device_rx st now f x = (st, [])).
+Proof. exact apci_refused_dropped. Qed.
+Print Assumptions C10_undecodable_apdu_is_dropped.
+
+Theorem C10_undecodable_netmsg_is_dropped : forall st now f x c h rest t,
+  Npci.dec_npci (f_data f) = Ok (c, h, rest) -> Npci.nmsg h = Some t ->
+  (existsb (N.eqb t) Npci.registered_types = false \/ exists e, Npci.dec_msg t rest = Err e) ->
+  snd (device_rx st now f x) = [] /\ same_tables st (fst (device_rx st now f x)).
+Proof. exact netmsg_refused_dropped. Qed.
+Print Assumptions C10_undecodable_netmsg_is_dropped.
+
+(* (3) after ANY history from power-up, a well-framed confirmed request (segmented or not) from a station on the local
+   network that has no live transaction under that invoke ID draws exactly the frames of the history-free function
+   reply_frames (configuration, DCC state, time, request, service outcome) — i.e. what a device that has seen nothing
+   sends ... *)
+Theorem C10_valid_after_garbage : forall cfg evs now f x m a,
+  let st := fst (device_run (dev_init cfg) evs) in
+  request_of f = Some (None, m, a) ->
+  find_tr (a_invoke a) (peer_code None m) (d_str st) O = None ->
+  snd (device_rx st now f x) = snd (device_rx (mkDev (d_cfg st) [] [] 0 (d_dcc st) RouterCache.empty [] false) now f x).
+Proof. exact valid_after_garbage_fresh. Qed.
+Print Assumptions C10_valid_after_garbage.
+
+(* ... and for an unsegmented request with a defined max-APDU code whose answer is a SimpleAck, Error, Reject or Abort:
+   exactly the one frame carrying the reply asap_octets prescribes for the octets.  _partial: a ComplexAck is covered by
+   C10_valid_after_garbage and C10_one_reply_end_to_end (it may leave as first segment or Abort, decided by the SSM
+   model), its parameters are not modelled; peers with an I-Am record and routed peers are covered by (1)/(2) and by
+   the correspondence only *)
+Theorem C10_valid_after_garbage_reply_partial : forall cfg evs now f x m a r dec,
+  let st := fst (device_run (dev_init cfg) evs) in
+  request_of f = Some (None, m, a) -> a_seg a = false ->
+  decode_max_apdu_length_accepted (a_maxresp a) = Ok (Some dec) ->
+  dcc_passes (d_dcc st) a = true ->
+  find_tr (a_invoke a) (peer_code None m) (d_str st) O = None ->
+  SsmWorld.assoc (peer_code None m) (SsmWorld.c_know (d_cfg st)) = None ->
+  asap_octets (Z.to_N (a_service a)) (map Z.to_N (a_data a)) (x_helper x) (x_exec x) = [r] ->
+  (ptype r = 2 \/ ptype r = 5 \/ ptype r = 6 \/ ptype r = 7)%N ->
+  snd (device_rx st now f x) = [DFrame (mac_code (f_src f)) None (reply_apdu a x r)].
+Proof. exact valid_after_garbage_reply. Qed.
+Print Assumptions C10_valid_after_garbage_reply_partial.
+
+(* (4) end to end: the octets of a frame that carry an intact confirmed-request header (unsegmented; ANY max-APDU code,
+   reserved ones are answered by Abort), from a local station without a live transaction under that invoke ID and
+   without I-Am record, on a device that listens (DCC), with a service that answers or raises: exactly one frame
+   goes back, to the sender, carrying the invoke ID — whatever the parameter octets are *)
+Theorem C10_one_reply_end_to_end : forall st now f x m a,
+  request_of f = Some (None, m, a) -> a_seg a = false ->
+  dcc_passes (d_dcc st) a = true ->
+  find_tr (a_invoke a) (peer_code None m) (d_str st) O = None ->
+  SsmWorld.assoc (peer_code None m) (SsmWorld.c_know (d_cfg st)) = None ->
+  x_exec x <> XSilent ->
+  exists fr, snd (device_rx st now f x) = [DFrame (mac_code (f_src f)) None fr] /\ a_invoke fr = a_invoke a.
+Proof. exact one_reply_end_to_end. Qed.
+Print Assumptions C10_one_reply_end_to_end.
+
+(* the key the model files a transaction under (Ssm.s_peer : Z) determines the station (network, MAC): two stations
+   never share a transaction, as `apdu.pduSource == tr.pdu_address` in the code *)
+Theorem C10_peer_key_injective : forall net m net' m',
+  bytes_ok m = true -> bytes_ok m' = true -> (length m <= 300)%nat -> (length m' <= 300)%nat ->
+  match net with Some n => (n < 65536)%N | None => True end -> match net' with Some n => (n < 65536)%N | None => True end ->
+  peer_code net m = peer_code net' m' -> net = net' /\ m = m'.
+Proof. exact peer_code_inj. Qed.
+Print Assumptions C10_peer_key_injective.
+
+(* non-vacuity: the device of the correspondence check; a ReadProperty frame; a frame of random octets; a truncated
+   request; a request with a reserved max-APDU code *)
+Definition c10_cfg := SsmWorld.mkNode 1 1476 3 64 3 3000 5000 2 3000 false [].
+Example C10_dev_inv_init : dev_inv (dev_init c10_cfg).
+Proof. apply dev_init_inv. split; reflexivity. Qed.
+Example C10_request_of_readproperty :
+  exists a, request_of (mkFrame [9%N] false [1;4;0;5;33;12;12;0;128;0;1;25;85]%N) = Some (None, [9%N], a) /\
+            a_seg a = false /\ a_invoke a = 33 /\ dcc_passes 0 a = true.
+Proof. eexists. vm_compute. repeat split. Qed.
+Example C10_scenarios :
+  canon_scenario c10_cfg 0 [ERx 0 (mkFrame [9%N] false [1;4;0;5;33;12;12;0;128;0;1;25;85]%N) (mkSvc true (XResp 3 0 0) 12 None)] 0
+    = [1; 1; 265; -1; -1; 3; 33; 0; 0; 0; 0; -1; 12;  0; 0; 0; 0;   0;  0; 0; 0; 0;  0] /\
+  canon_scenario c10_cfg 0 [ERx 0 (mkFrame [9%N] false [1;4;0;5;33;12;12;0;128;0;1]%N) (mkSvc true XSilent 0 None)] 0
+    = [1; 1; 265; -1; -1; 6; 33; 5; 0; 0; 0; -1; 0;   0; 0; 0; 0;   0;  0; 0; 0; 0;  0] /\
+  canon_scenario c10_cfg 0 [ERx 0 (mkFrame [9%N] false [1;4;0;9;33;12;12;0;128;0;1;25;85]%N) (mkSvc true XSilent 0 None)] 0
+    = [1; 1; 265; -1; -1; 7; 33; 0; 0; 0; 0; -1; 0;   0; 0; 0; 0;   0;  0; 0; 0; 0;  0] /\
+  canon_scenario c10_cfg 0 [ERx 0 (mkFrame [9%N] false [200;17;3]%N) no_svc] 0 = [0;  0; 0; 0; 0;   0;  0; 0; 0; 0;  0].
+Proof. vm_compute. repeat split. Qed.
